@@ -16,6 +16,10 @@ N8  if c: ...jump  else: rest    ->  if c: ...jump ; rest      (jump = return / 
 N9  if a: (if b: X)               ->  if a and b: X            (no else on either; nested and-chains are flattened)
 N10 in test positions (if / while / conditional expression / assert / comprehension filter): negations are pushed inward
     (De Morgan), double negations dropped, comparisons complemented
+N11 inside functions:  x: T = e   ->  x = e                  (an annotation on a local changes nothing at run time)
+N12 inside functions:  t = <pure e> ; S[t]   ->  S[e]        (t a plain local read exactly once, in the next statement, and
+                                      named nowhere else in the function; e without calls other than len(); no call in S is
+                                      completed before t is read, so e is evaluated in the same state either way)
 Positions (lineno/col_offset) of the rewritten nodes are kept for reporting.
 """
 from __future__ import annotations
@@ -174,7 +178,101 @@ class Normaliser(ast.NodeTransformer):
         return node
 
 
-def normalise(tree: ast.AST) -> ast.AST:
+class _DropLocalAnnotations(ast.NodeTransformer):
+    """N11 (run first, so that N4/N5 see plain assignments)"""
+
+    depth = 0
+
+    def visit_FunctionDef(self, node):
+        self.depth += 1
+        self.generic_visit(node)
+        self.depth -= 1
+        return node
+
+    visit_AsyncFunctionDef = visit_FunctionDef
+
+    def visit_ClassDef(self, node):
+        d, self.depth = self.depth, 0
+        self.generic_visit(node)
+        self.depth = d
+        return node
+
+    def visit_AnnAssign(self, node):
+        if self.depth and node.value is not None and isinstance(node.target, ast.Name):
+            return ast.copy_location(ast.Assign(targets=[node.target], value=node.value), node)
+        return node
+
+
+def _pure(e):
+    for x in ast.walk(e):
+        if isinstance(x, ast.Call) and not (isinstance(x.func, ast.Name) and x.func.id == "len"):
+            return False
+        if isinstance(x, (ast.NamedExpr, ast.Await, ast.Yield, ast.YieldFrom, ast.Lambda, ast.ListComp, ast.SetComp, ast.DictComp, ast.GeneratorExp, ast.Starred)):
+            return False
+    return True
+
+
+def _inline_single_use_temps(tree):
+    """N12"""
+    for fn in [n for n in ast.walk(tree) if isinstance(n, (ast.FunctionDef, ast.AsyncFunctionDef))]:
+        changed = True
+        while changed:
+            changed = False
+            counts = {}
+            for x in ast.walk(fn):
+                if isinstance(x, ast.Name):
+                    counts[x.id] = counts.get(x.id, 0) + 1
+                elif isinstance(x, (ast.Global, ast.Nonlocal)):
+                    for g in x.names:
+                        counts[g] = counts.get(g, 0) + 10
+                elif isinstance(x, ast.arg):
+                    counts[x.arg] = counts.get(x.arg, 0) + 10
+            for holder in ast.walk(fn):
+                for field in ("body", "orelse", "finalbody"):
+                    lst = getattr(holder, field, None)
+                    if not (isinstance(lst, list) and lst and isinstance(lst[0], ast.stmt)):
+                        continue
+                    for j in range(len(lst) - 1):
+                        a, b = lst[j], lst[j + 1]
+                        if not (isinstance(a, ast.Assign) and len(a.targets) == 1 and isinstance(a.targets[0], ast.Name) and counts.get(a.targets[0].id) == 2 and _pure(a.value)):
+                            continue
+                        if not isinstance(b, (ast.Assign, ast.AugAssign, ast.Return, ast.Expr, ast.AnnAssign)):
+                            continue  # simple statements only: no loop may evaluate the use more than once
+                        t = a.targets[0].id
+                        uses = [x for x in ast.walk(b) if isinstance(x, ast.Name) and x.id == t and isinstance(x.ctx, ast.Load)]
+                        if len(uses) != 1:
+                            continue
+                        u = uses[0]
+                        inside_scope = any(isinstance(x, (ast.Lambda, ast.ListComp, ast.SetComp, ast.DictComp, ast.GeneratorExp)) and any(y is u for y in ast.walk(x)) for x in ast.walk(b))
+                        if inside_scope:
+                            continue
+                        upos = (getattr(u, "lineno", 0), getattr(u, "col_offset", 0))
+                        earlier_call = any(isinstance(x, ast.Call) and (getattr(x, "end_lineno", None) or 0, getattr(x, "end_col_offset", None) or 0) <= upos and not (isinstance(x.func, ast.Name) and x.func.id == "len") for x in ast.walk(b))
+                        if earlier_call:
+                            continue
+                        if isinstance(b, ast.AugAssign) or (isinstance(b, ast.Assign) and any(not isinstance(tt, ast.Name) for tt in b.targets) and not isinstance(a.value, (ast.Name, ast.Constant))):
+                            # the target of b is evaluated after its value, so a temp feeding the value is fine; nothing to reject
+                            pass
+
+                        class Sub(ast.NodeTransformer):
+                            def visit_Name(self, node):
+                                return a.value if node is u else node
+
+                        lst[j + 1] = Sub().visit(b)
+                        del lst[j]
+                        changed = True
+                        break
+                    if changed:
+                        break
+                if changed:
+                    break
+    return tree
+
+
+def normalise(tree: ast.AST, typed_locals: bool = False) -> ast.AST:
+    if not typed_locals:  # in lowered .pyx modules the annotation is the C type of the local, which rules read
+        tree = _DropLocalAnnotations().visit(tree)
+        tree = _inline_single_use_temps(tree)
     tree = Normaliser().visit(tree)
     ast.fix_missing_locations(tree)
     return tree
